@@ -126,6 +126,103 @@ theorem aux_rule_logReplace (e p : Ballot) : logReplaces e p = true ↔ p < e :=
   | eq => simp [Gen.logReplaceCmp, Cmp.eval]; exact le_of_eq ((aux_cmp_eq e p).1 hc)
   | gt => simp [Gen.logReplaceCmp, Cmp.eval]; exact (aux_cmp_gt e p).1 hc
 
+theorem aux_recommitFold_inv (es : List (Ballot × Nat)) : ∀ (acc : Nat × Option (Ballot × Nat)) (seen : List (Ballot × Nat)),
+    (acc.2 = none → seen = []) →
+    (∀ cb cv, acc.2 = some (cb, cv) → (cb, cv) ∈ seen ∧ ∀ b' w, (b', w) ∈ seen → b' ≤ cb) →
+    (((es.foldl recommitFold acc).2 = none → seen ++ es = []) ∧
+     ∀ cb cv, (es.foldl recommitFold acc).2 = some (cb, cv) →
+       (cb, cv) ∈ seen ++ es ∧ ∀ b' w, (b', w) ∈ seen ++ es → b' ≤ cb) := by
+  induction es with
+  | nil => intro acc seen h1 h2; simpa using ⟨h1, h2⟩
+  | cons e rest ih =>
+    intro acc seen h1 h2
+    simp only [List.foldl_cons]
+    have key : ((recommitFold acc e).2 = none → seen ++ [e] = []) ∧
+        ∀ cb cv, (recommitFold acc e).2 = some (cb, cv) →
+          (cb, cv) ∈ seen ++ [e] ∧ ∀ b' w, (b', w) ∈ seen ++ [e] → b' ≤ cb := by
+      obtain ⟨eb, ev⟩ := e
+      unfold recommitFold
+      cases hacc : acc.2 with
+      | none =>
+        have hs := h1 hacc
+        subst hs
+        simp
+      | some p =>
+        obtain ⟨cb, cv⟩ := p
+        obtain ⟨hin, hmax⟩ := h2 cb cv hacc
+        simp only
+        by_cases hh : Cmp.eval Gen.recommitHigherCmp (eb.cmp cb) = true
+        · have hlt : cb < eb := by
+            have : eb.cmp cb = .gt := by
+              cases hc : eb.cmp cb <;> simp [Gen.recommitHigherCmp, Cmp.eval, hc] at hh ⊢
+            exact (aux_cmp_gt eb cb).1 this
+          simp only [hh, if_true]
+          by_cases hsame : (ev == cv) = true
+          · have hev : ev = cv := by simpa using hsame
+            simp only [hsame, Bool.not_true, Bool.false_eq_true, if_false]
+            refine ⟨by simp, ?_⟩
+            intro cb' cv' heq
+            simp at heq
+            obtain ⟨e1, e2⟩ := heq
+            subst e1; subst e2
+            refine ⟨by simp [hev], ?_⟩
+            intro b' w hm
+            simp at hm
+            rcases hm with hm | hm
+            · exact le_trans (hmax b' w hm) (le_of_lt hlt)
+            · rw [hm.1]
+          · simp only [hsame, Bool.not_false, if_true]
+            refine ⟨by simp, ?_⟩
+            intro cb' cv' heq
+            simp at heq
+            obtain ⟨e1, e2⟩ := heq
+            subst e1; subst e2
+            refine ⟨by simp, ?_⟩
+            intro b' w hm
+            simp at hm
+            rcases hm with hm | hm
+            · exact le_trans (hmax b' w hm) (le_of_lt hlt)
+            · rw [hm.1]
+        · simp only [hh]
+          have hle : eb ≤ cb := by
+            by_contra hn
+            have hgt : cb < eb := lt_of_not_ge hn
+            have := (aux_cmp_gt eb cb).2 hgt
+            simp [Gen.recommitHigherCmp, Cmp.eval, this] at hh
+          refine ⟨by simp, ?_⟩
+          intro cb' cv' heq
+          simp at heq
+          obtain ⟨e1, e2⟩ := heq
+          subst e1; subst e2
+          refine ⟨by simp [hin], ?_⟩
+          intro b' w hm
+          simp at hm
+          rcases hm with hm | hm
+          · exact hmax b' w hm
+          · rw [hm.1]; exact hle
+    have := ih (recommitFold acc e) (seen ++ [e]) key.1 key.2
+    simpa [List.append_assoc] using this
+
+/-- recommit_after_leader_election: the value proposed for a slot is the value of a reported entry
+    with the highest ballot - guard (b) of `Step.sendP2a` -/
+theorem aux_rule_recommit (f : Nat) (es : List (Ballot × Nat)) (v : Nat) (h : recommitValue f es = some v) :
+    ∃ b, (b, v) ∈ es ∧ ∀ b' w, (b', w) ∈ es → b' ≤ b := by
+  unfold recommitValue at h
+  have hinv := aux_recommitFold_inv es (0, none) [] (fun _ => rfl) (by intro cb cv hh; cases hh)
+  cases hf : es.foldl recommitFold (0, none) with
+  | mk count o =>
+    rw [hf] at h hinv
+    cases o with
+    | none => simp at h
+    | some p =>
+      obtain ⟨cb, cv⟩ := p
+      simp only at h
+      split at h
+      · cases h
+      · injection h with h; subst h
+        obtain ⟨h1, h2⟩ := hinv.2 cb cv rfl
+        exact ⟨cb, by simpa using h1, fun b' w hm => h2 b' w (by simpa using hm)⟩
+
 /-- "f + 1 out of 2 f + 1" (`collect_quorum(.., f + 1, 2 * f + 1)`) is a quorum system -/
 def majorityQS (f : Nat) : QuorumSystem (Fin (2 * f + 1)) where
   isQ Q := ∃ S : Finset (Fin (2 * f + 1)), Gen.p2Quorum f ≤ S.card ∧ ∀ a ∈ S, Q a
